@@ -22,11 +22,12 @@ SRC_ROOT = os.environ.get("BASICTDF_SRC", "/repo/src")
 
 class _IntMeta(type):
     def __instancecheck__(cls, obj):
-        return isinstance(obj, int) or E.is_symint(obj)
+        # numpy integer scalars (values read out of an array) are not `int`s
+        return (isinstance(obj, int) or E.is_symint(obj)) and not E.is_np_scalar(obj)
 
     def __call__(cls, x=0, *a):
         if E.is_symint(x):
-            return x
+            return E.strip_np(x)
         if isinstance(x, E.SFloat):
             return int(float(x))
         if isinstance(x, symnp.ndarray):
